@@ -247,9 +247,127 @@ def handleInst (q n shards ops : String) (impl : String) : Verdict :=
           trivial := !disc || !(evs.any fun e => e.isRun && e.fault != .none) }
   | _, _ => bad "args"
 
+/-! ### world mode
+
+  `C12 world s<shards> <script> <op> <op> ... => T:<step>;..|E:<e>,..|d=<files>|u=<files>|ut=<files>|tbl=..|tblt=..|snap=..|tf=..`
+
+see harness/cmd/hv/c12.go.  The model replays the twin's facts with the fault script (`wstep`) and
+predicts the error flags, the files that end up different from the twin's, the files HAProxy never
+read and whether the running server table matches the files. -/
+
+def parseFileFact (s : String) : Option FileFact :=
+  match s.splitOn "@" with
+  | [n, a, b] => some { name := n, ns := a, srv := b }
+  | _ => none
+
+def parseStepFact (s : String) : Option StepFact :=
+  match s.splitOn "~" with
+  | [r, n, files] =>
+    match files.splitOn "^" with
+    | [pre, post] => do
+      some { reload := r == "1", sends := ← n.toNat?
+             pre := ← parseList parseFileFact pre "+", post := ← parseList parseFileFact post "+" }
+    | _ => none
+  | _ => none
+
+def parseWFault (s : String) : Option WFault :=
+  if s.startsWith "F=" then some (.files ((s.drop 2).toString.splitOn "+"))
+  else if s = "RS" then some .reloadSend
+  else if s = "RF" then some .reloadResult
+  else if s.startsWith "AE" || s.startsWith "AB" then some .admin
+  else none
+
+def parseScript (s : String) : Option (List (Nat × WFault)) :=
+  if s = "-" then some [] else
+  (s.splitOn ",").mapM fun part =>
+    match part.splitOn ":" with
+    | i :: rest => do some (← i.toNat?, ← parseWFault (":".intercalate rest))
+    | [] => none
+
+/-- priority map files (`.._begin_02.map`): which entries land in which file depends on Go's map
+iteration order (C04 factors the suffixes out of its normal form); raw file comparison between two
+controllers is meaningless when they exist -/
+def isPrioFile (n : String) : Bool :=
+  n.endsWith ".map" &&
+    (match ((n.dropEnd 4).toString.toList.reverse) with
+     | a :: b :: '_' :: _ => a.isDigit && b.isDigit
+     | _ => false)
+
+def showNames (l : List String) : String := if l.isEmpty then "-" else "+".intercalate l
+
+def field (fs : List String) (key : String) : Option String :=
+  (fs.find? (·.startsWith key)).map fun f => (f.drop key.length).toString
+
+def sortNames (l : List String) : List String := (l.toArray.qsort (· < ·)).toList
+
+/-- the part order used for the finding signature -/
+def fileStage (n : String) : Nat :=
+  if n.startsWith "maps/" then 0
+  else if n.startsWith "cfg/crtlist_" then 1
+  else 2
+
+def handleWorld (script : String) (ops : List String) (impl : String) : Verdict :=
+  if impl.startsWith "PANIC" then { model := "-", agree := false, oracle := some "panic-in-controller" } else
+  if impl.startsWith "err:" then { model := "-", agree := false, oracle := some "harness-error" } else
+  let fs := impl.splitOn "|"
+  match parseScript script, field fs "T:", field fs "E:", field fs "d=", field fs "u=", field fs "ut=",
+        field fs "tbl=", field fs "tblt=", field fs "snap=" with
+  | some scr, some t, some e, some d, some u, some ut, some tbl, some tblt, some snap =>
+    match (t.splitOn ";").mapM parseStepFact with
+    | none => { model := "-", agree := false, oracle := some "unparsable-implementation-output" }
+    | some steps =>
+      let nsync := (ops.filter (· == "sync")).length
+      if steps.length != nsync then bad "steps" else
+      let faults := (List.range steps.length).map fun i => ((scr.find? (·.1 == i)).map (·.2)).getD .none
+      let st := wrun {} (steps.zip faults)
+      let prio := steps.any fun t => (t.pre ++ t.post).any fun g => isPrioFile g.name
+      let st := if prio && !st.unknown then { st with unknown := true, known := steps.length } else st
+      let es := ",".intercalate (st.errs.map fun b => if b then "1" else "0")
+      let md := showNames (sortNames st.diff)
+      let mu := showNames (sortNames st.unloaded)
+      let mt := if st.tableOK then "eq" else "diff"
+      let m := if st.unknown then s!"E:{es}|?" else s!"E:{es}|d={md}|u={mu}|tbl={mt}"
+      let eImpl := e.splitOn ","
+      let eModel := st.errs.map fun b => if b then "1" else "0"
+      let agree := if st.unknown then eImpl.take st.known == eModel.take st.known && eImpl.length == eModel.length
+        else es == e && md == d && mu == u && mt == tbl
+      -- the property: after the last fault, a fault-free retry with no new event was made (the harness
+      -- always appends it); files = the twin's, HAProxy = the files
+      let lastFault := (faults.zipIdx.filter fun x => x.1 != .none).getLast?
+      let retried := match lastFault with
+        | some (_, i) => decide (i + 1 < steps.length)
+        | none => true
+      let uNames := if u == "-" then [] else u.splitOn "+"
+      let utNames := if ut == "-" then [] else ut.splitOn "+"
+      let unl := uNames.filter fun n => !utNames.contains n
+      let dNames := if d == "-" then [] else d.splitOn "+"
+      let stale := snap != "eq"
+      let lastIsReload := match lastFault with
+        | some (.reloadSend, _) => true
+        | some (.reloadResult, _) => true
+        | _ => false
+      -- a reconcile without an injected fault returned an error
+      let spurious := (eImpl.zip faults).any fun x => x.1 == "1" && x.2 == .none
+      let oracle : Option String :=
+        if spurious then some "update-keeps-failing-after-failed-map-write"
+        else if !retried then none
+        else if stale && !unl.isEmpty then some "half-written-files-after-fault"
+        else if stale then
+          match (dNames.map fileStage).foldl min 3 with
+          | 0 => some "change-lost-after-failed-map-write"
+          | 1 => some "change-lost-after-failed-crtlist-write"
+          | _ => some "change-lost-after-failed-cfg-write"
+        else if !unl.isEmpty || (tbl != "eq" && tblt == "eq") then
+          some (if lastIsReload then "reload-not-retried-after-failed-reload" else "reload-skipped-after-failed-write")
+        else none
+      { model := m, agree := agree, oracle := oracle
+        trivial := st.unknown || !(faults.any (· != .none)) }
+  | _, _, _, _, _, _, _, _, _ => { model := "-", agree := false, oracle := some "unparsable-implementation-output" }
+
 def handle (args : List String) (impl : String) : Verdict :=
   match args with
   | ["inst", q, n, shards, ops] => handleInst q n shards ops impl
+  | "world" :: _sh :: script :: ops => handleWorld script ops impl
   | _ => bad "C12"
 
 end HapVerif.C12
